@@ -349,6 +349,12 @@ pub fn classify_c12(cx: &Ctx) -> &'static str {
                 return "add-fk-unvalidated";
             }
         }
+        Stmt::InsertSelect { .. } => {
+            // the bulk transfer inserts row by row: an error leaves the earlier rows behind
+            if cx.is_err {
+                return "partial-effects-on-error";
+            }
+        }
         Stmt::Delete { t, wh } => {
             if cx.is_err {
                 return "partial-effects-on-error";
